@@ -1034,8 +1034,14 @@ func runV2(ci *chainImporter, repo, outPath, manifestPath string) int {
 	for _, ps := range ordered {
 		mod := ps.t.mod
 		fmt.Fprintf(&out, "Module %s.\n\n", mod)
+		// records that do not mention an external interface object; the sum interfaces; the
+		// external interface objects; the records that hold one
+		late := map[*recInfo]bool{}
 		for _, r := range g.recOf[mod] {
-			if !r.iface {
+			late[r] = !r.iface && ps.t.usesIface(r, map[*recInfo]bool{})
+		}
+		for _, r := range g.recOf[mod] {
+			if !r.iface && !late[r] {
 				out.WriteString(r.emit(ps.t))
 			}
 		}
@@ -1044,6 +1050,11 @@ func runV2(ci *chainImporter, repo, outPath, manifestPath string) int {
 		}
 		for _, r := range g.recOf[mod] {
 			if r.iface {
+				out.WriteString(r.emit(ps.t))
+			}
+		}
+		for _, r := range g.recOf[mod] {
+			if late[r] {
 				out.WriteString(r.emit(ps.t))
 			}
 		}
@@ -1444,4 +1455,31 @@ func (t *tr2) qIn(from, mod, name string) string {
 		return name
 	}
 	return mod + "." + name
+}
+
+// usesIface: the record has (transitively, within its module) a field holding an external
+// interface object of the same module, so it must be declared after it.
+func (t *tr2) usesIface(r *recInfo, seen map[*recInfo]bool) bool {
+	if seen[r] {
+		return false
+	}
+	seen[r] = true
+	for _, f := range r.fields {
+		if !f.ok || f.ty == nil {
+			continue
+		}
+		ty := f.ty
+		if p, ok := ty.Underlying().(*types.Pointer); ok {
+			ty = p.Elem()
+		}
+		if n, ok := extIface(ty); ok && t.g.mods[n.Obj().Pkg().Path()] == r.mod {
+			return true
+		}
+		if n, _, ok := namedStruct(ty); ok {
+			if fr := t.g.recs[n.Obj()]; fr != nil && fr.mod == r.mod && t.usesIface(fr, seen) {
+				return true
+			}
+		}
+	}
+	return false
 }
